@@ -169,6 +169,7 @@ namespace hv
             else if (kind == "ticker") out = wire<Ticker>(w, Int{st.geti("count", 3)}, Int{st.geti("period", 1)}, id);
             else if (kind == "timer0") out = wire<Timer0>(w, id);
             else if (kind == "timer1") out = wire<Timer1>(w, arg(0), id);
+            else if (kind == "timer1p") out = wire<Timer1P>(w, arg(0), id);
             else if (kind == "timer1v") out = wire<Timer1V>(w, arg(0), id);
             else if (kind == "tobool")
             {
